@@ -20,10 +20,17 @@ NOTES = ['all ternary sequences of length 2..4 (quick) / 2..6 (thorough) are enu
          'input form rotating; the rest is random',
          'the double is compared with a verified 80-bit interval enclosure of the model\'s real value, tolerance 2^-30; '
          'logarithms of 1..129 come from a table evaluated once per Coq process (2.3 s), a case then costs ~15 ms',
+         'list/extremes: values around +-2^63, 2^64, 10^30 with mixed signs in list, object/int64/uint64 array form, '
+         'r in {0, 1, 2, 2^62}; real_r: float tolerances 0.5, 0.999, 1.5, 2.0, 2.5 (model side floor r); long/*: N = 300, '
+         '600, 1200 with 2 or 4 states, m = 1, r = 0 (quick: 3 cases, thorough: 8)',
          'exact layer: the numerators of C are recovered from the argument of np.log (patched during the call) and '
          'compared exactly; if the code stops calling np.log twice with fractions k/n this part is skipped, the double '
          'still is compared']
-ASSUMPTIONS = ['integer sequences with |values| < 2^31, m in 1..4 (thorough: 1..6), integer r >= 0, length >= m+1',
+ASSUMPTIONS = ['integer sequences of any magnitude (sampled up to 10^30), m in 1..4 (thorough: 1..6), r >= 0 integer or float '
+               '(the model receives floor r, justified by C19_real_tolerance_counts), length >= m+1',
+               'a list means a list of Python ints: a list holding NumPy scalars (np.uint8(0), ...) still computes '
+               'abs(ua - va) in that dtype and wraps (checked: apen([np.uint8(z) for z in [0,1,2,0,1,2,1]], 2, 1) = 0.2105, '
+               'as ints 0.3075); outside the property as stated, not generated',
                'digit strings are ASCII 0..9 (int() also accepts other Unicode digits; not exercised)',
                'the dtype of an array is not part of the model: the model sees the integer content (this is what the '
                'fix 8fd721a established); a wrap-around in a narrow dtype shows as a disagreement',
@@ -38,7 +45,7 @@ RS = [0, 1, 2, 5]
 
 
 def _mk(kind, zs, m, r, form):
-    return {'kind': kind, 'zs': [int(z) for z in zs], 'm': int(m), 'r': int(r), 'form': form}
+    return {'kind': kind, 'zs': [int(z) for z in zs], 'm': int(m), 'r': r if isinstance(r, float) else int(r), 'form': form}
 
 
 def _digit_form(rng):
@@ -141,6 +148,47 @@ def generate(rng, tier):
         N = rng.randint(2, 30)
         zs = [rng.randrange(rng.choice([2, 3, 10])) for _ in range(N)]
         yield dict(_mk('defaults', zs, 1, 0, (forms3 + ['array:uint8', 'array:int8'])[i % 5]), defaults=True)
+    # 7d. values at and beyond the int64 / uint64 limits, mixed signs: the list branch must compute on the Python
+    #     ints it was given (fix bf18ea2; np.array(list) made them uint64 / float64, whose differences wrap / round)
+    B = 2 ** 63
+    yield _mk('list/extremes', [B, B + 1, B, B + 1, B, B, B + 1, B], 1, 1, 'list')
+    yield _mk('list/extremes', [B, B + 1, B, B + 1, B, B, B + 1, B], 1, 1, 'array:uint64')
+    yield _mk('list/extremes', [B - 1, -B, 5, 5, 7, 7, 5, 7], 1, 1, 'list')
+    yield _mk('list/extremes', [B - 1, -B, 5, 5, 7, 7, 5, 7], 1, 1, 'array:int64')
+    yield _mk('list/extremes', [B, -1, B, 0, -1, B], 1, 0, 'list')
+    pools = [[B - 1, B, B + 1, B + 2], [-B, -B + 1, B - 1, B - 2, 0, 1], [2 ** 64 - 1, 2 ** 64, 2 ** 64 + 1, 0, 1],
+             [10 ** 30, 10 ** 30 + 1, 10 ** 30 + 2, -10 ** 30], [B, -1, 0, B + 1, -B], [2 ** 62, -2 ** 62, 0, 2 ** 63, 1]]
+    for i in range(600 if thorough else 120):
+        pool = pools[i % len(pools)]
+        m = rng.randint(1, 3)
+        N = rng.randint(m + 1, 16)
+        zs = [rng.choice(pool) for _ in range(N)]
+        r = [0, 1, 2 ** 62, 1, 0, 2][i % 6] if i % 12 < 6 else rng.choice([0, 1, 2 ** 62])
+        forms = ['list', 'list', 'array:object']
+        if all(-B <= z < B for z in zs):
+            forms.append('array:int64')
+        if all(0 <= z < 2 * B for z in zs):
+            forms.append('array:uint64')
+        yield _mk('list/extremes', zs, m, r, rng.choice(forms))
+    # 7e. real-valued tolerances: on integer data r behaves like floor(r) (C19_real_tolerance_floor); the model gets floor(r)
+    for i in range(300 if thorough else 60):
+        m = rng.randint(1, 3)
+        N = rng.randint(m + 1, 30)
+        if i % 3 == 0:
+            zs = [rng.randint(-12, 12) for _ in range(N)]
+            form = rng.choice(['list', 'array:int64', 'array:int8'])
+        else:
+            zs = [rng.randrange(rng.choice([3, 4, 10])) for _ in range(N)]
+            form = _digit_form(rng)
+        yield _mk('real_r', zs, m, [0.5, 1.5, 2.0, 0.999, 2.5][i % 5], form)
+    # 7f. long sequences, m = 1, r = 0: thousands of windows, fractions whose product underflows a double
+    #     (a phi computed as log(prod(C)) returns -inf there), N beyond the model's ln table
+    longs = [(300, 4, 'list'), (600, 2, 'str'), (1200, 4, 'list')]
+    if thorough:
+        longs += [(300, 2, 'array:uint8'), (600, 4, 'array:int64'), (1200, 2, 'str'), (600, 2, 'list'), (300, 4, 'str')]
+    for (N, K, form) in longs:
+        zs = [rng.randrange(K) for _ in range(N)]
+        yield _mk('long/N=%d' % N, zs, 1, 0, form)
     # 8. unsupported types
     for i in range(60 if thorough else 24):
         m = rng.randint(1, max_m)
@@ -275,7 +323,7 @@ def to_coq(c, obs):
         inp = 'SeqOther'
     counts = obs['counts']
     cc = copt(counts, lambda p: '(%s, %s)' % (clist(p[0], cnat), clist(p[1], cnat)))
-    return '(CApen %s %s %s %s %s)' % (inp, cnat(c['m']), cz(c['r']), cres(obs['res'], _cdbl), cc)
+    return '(CApen %s %s %s %s %s)' % (inp, cnat(c['m']), cz(math.floor(c['r'])), cres(obs['res'], _cdbl), cc)
 
 
 def nontrivial(c, obs):
@@ -333,13 +381,18 @@ def shrink(c):
     if 'bad' in c:
         return
     if len(zs) > m + 1:
-        yield dict(c, zs=zs[:-1])
-        yield dict(c, zs=zs[1:])
         if len(zs) > 2 * (m + 1):
             yield dict(c, zs=zs[:len(zs) // 2])
+            yield dict(c, zs=zs[len(zs) // 2:])
+        yield dict(c, zs=zs[:-1])
+        yield dict(c, zs=zs[1:])
     if m > 1:
         yield dict(c, m=m - 1)
-    if c['r'] > 0:
+    if isinstance(c['r'], float):
+        yield dict(c, r=int(math.floor(c['r'])))
+    elif c['r'] > 4:
+        yield dict(c, r=c['r'] // 2)
+    elif c['r'] > 0:
         yield dict(c, r=c['r'] - 1)
     if c['form'] == 'range':
         return
